@@ -18,12 +18,14 @@ Sum(s) == LET RECURSIVE S(_)
               S(i) == IF i = 0 THEN 0 ELSE s[i] * (i + 1) + S(i - 1)
           IN S(Len(s))
 MIdx(me) == CASE me = "newton" -> 0 [] me = "eigh" -> 1 [] me = "lobpcg" -> 2
-\* an affine hash with pairwise different odd multipliers plus two quadratic terms: every
-\* coordinate value occurs in every slice, neighbouring cases fall into different slices
-Hash(c) == c.n * 7 + (c.ps + 1) * 13 + (IF c.fill = "junk" THEN 31 ELSE 0) + Sum(c.exps) * 3
-           + Len(c.exps) * 17 + (c.c + 6) * 5 + c.p * 11 + c.eexp * 19
-           + (IF c.rel THEN 23 ELSE 0) + MIdx(c.method) * 29 + c.k * 37
-           + c.p * (c.n + Len(c.exps)) + (c.c + 6) * c.eexp
+\* a hash that separates (almost) all coordinates - affine with spread-out multipliers plus two
+\* quadratic terms, range < 5e5 - scrambled by a multiplication modulo a prime: slices are fine
+\* grained for every modulus, every coordinate value occurs in every slice of moderate size
+Hash0(c) == c.n * 7 + (c.ps + 1) * 131 + (IF c.fill = "junk" THEN 3001 ELSE 0) + Sum(c.exps) * 17
+            + Len(c.exps) * 1009 + (c.c + 6) * 523 + c.p * 10007 + c.eexp * 257
+            + (IF c.rel THEN 50021 ELSE 0) + MIdx(c.method) * 70001 + c.k * 911
+            + c.p * (c.n + Len(c.exps)) * 37 + (c.c + 6) * c.eexp * 101
+Hash(c) == (Hash0(c) * 1103) % 1000003
 
 Full == Lattice({1, 2, 3, 5, 8, 16}, {0, 2, 4, 6, 8}, {-6, 0, 6}, 1..8, {6, 12}, BOOLEAN,
                 Methods, {"f64"})
